@@ -148,10 +148,83 @@ fn run_conc(f: &std::collections::HashMap<String, String>) -> String {
     format!("init={} res={} final={}", init, per.join("!"), observe_state(&reg, &ids, &keys, "u"))
 }
 
+/// `k=conc rounds=<n> ids= keys= pre=<ops> sync=<0|1> th=<ops>!<ops>...`: the same history `n`
+/// times, every round on a fresh registry (with fresh sinks) brought to the same state by
+/// `pre`.  The threads are started once and released together at a spinning gate before every
+/// round (tight overlap of the first operations; with sync=1 before every operation); inside a
+/// round they run freely.  Every round has its own logical clock; rounds are separated by `@`
+/// in `res=` and `final=`.  Every round is an ordinary concurrent history of the model.
+fn run_conc_rounds(f: &std::collections::HashMap<String, String>) -> String {
+    struct St { reg: PeerRegistry, sinks: Vec<Arc<Capture>>, clock: AtomicU64 }
+    let ids: Vec<u64> = f["ids"].split('.').map(p).collect();
+    let keys: Vec<u64> = f["keys"].split('.').map(p).collect();
+    let nrounds = usize::from_str_radix(&f["rounds"], 16).unwrap();
+    let sync = f.get("sync").map(|s| s == "1").unwrap_or(false);
+    let mut inits = Vec::new();
+    let states: Arc<Vec<St>> = Arc::new((0..nrounds).map(|r| {
+        let reg = PeerRegistry::new();
+        let sinks: Vec<Arc<Capture>> = ids.iter().map(|id| { let c = Capture::default(); c.reports_closed.store(id % 3 == 2, std::sync::atomic::Ordering::SeqCst); Arc::new(c) }).collect();
+        if f["pre"] != "-" { for (j, op) in f["pre"].split(';').enumerate() { let (_, b) = conc_op(&reg, &sinks, &ids, op, &format!("pre/{r}/{j}")); drop(b); } }
+        inits.push(observe_state(&reg, &ids, &keys, "u"));
+        St { reg, sinks, clock: AtomicU64::new(1) }
+    }).collect());
+    // one prefix, one state: every round starts where the first one does
+    // (two fresh registries taken through the same sequential prefix cannot both be in the state the model gives)
+    if inits.iter().any(|i| *i != inits[0]) { return "crash=prefix-states-differ".into(); }
+    let threads: Vec<Vec<String>> = f["th"].split('!').map(|t| if t == "-" { vec![] } else { t.split(';').map(|s| s.to_string()).collect() }).collect();
+    let n = threads.len();
+    let maxops = threads.iter().map(|t| t.len()).max().unwrap_or(0);
+    // gates are passed by all threads in the same order: the g-th gate opens when g*n arrivals were counted
+    let arrived = Arc::new(AtomicUsize::new(0));
+    let mut handles = Vec::new();
+    for (ti, ops) in threads.into_iter().enumerate() {
+        let (states, ids, arrived) = (Arc::clone(&states), ids.clone(), Arc::clone(&arrived));
+        handles.push(std::thread::spawn(move || -> Result<Vec<String>, ()> {
+            let mut all = Vec::with_capacity(states.len());
+            let mut gates = 0usize;
+            for (r, st) in states.iter().enumerate() {
+                let mut res = Vec::with_capacity(ops.len());
+                for j in 0..maxops {
+                    if sync || j == 0 {
+                        gates += 1;
+                        arrived.fetch_add(1, Ordering::SeqCst);
+                        let t0 = Instant::now(); let mut spins = 0u32;
+                        while arrived.load(Ordering::SeqCst) < gates * n {
+                            spins = spins.wrapping_add(1);
+                            if spins % 4096 == 0 { std::thread::yield_now(); if t0.elapsed() > Duration::from_secs(10) { return Err(()); } } else { std::hint::spin_loop(); }
+                        }
+                    }
+                    if j >= ops.len() { if sync { continue } else { break } }
+                    let s = st.clock.fetch_add(1, Ordering::SeqCst);
+                    let (o, b) = conc_op(&st.reg, &st.sinks, &ids, &ops[j], &format!("r{r}/t{ti}/{j}"));
+                    let e = st.clock.fetch_add(1, Ordering::SeqCst);
+                    let o = match b { Some(b) => finish_broadcast(&st.sinks, &ids, b), None => o };
+                    res.push(format!("{:x}.{:x}.{}", s, e, o));
+                }
+                all.push(if res.is_empty() { "-".to_string() } else { res.join(";") });
+            }
+            Ok(all)
+        }));
+    }
+    let mut per: Vec<Vec<String>> = Vec::new();
+    let mut crash = None;
+    for hd in handles {
+        match hd.join() {
+            Ok(Ok(r)) => per.push(r),
+            Ok(Err(())) => crash = crash.or(Some("crash=hang")),
+            Err(_) => crash = crash.or(Some("crash=panic")),
+        }
+    }
+    if let Some(c) = crash { return c.into(); }
+    let res: Vec<String> = (0..nrounds).map(|r| per.iter().map(|t| t[r].clone()).collect::<Vec<_>>().join("!")).collect();
+    let finals: Vec<String> = states.iter().map(|st| observe_state(&st.reg, &ids, &keys, "u")).collect();
+    format!("init={} res={} final={}", inits[0], res.join("@"), finals.join("@"))
+}
+
 fn run_case(line: &str) -> String {
     let f = fields(line);
     if f.get("k").map(|k| k == "conc").unwrap_or(false) {
-        return guard(move || run_conc(&f)).unwrap_or_else(|_| "crash=panic".into());
+        return guard(move || if f.contains_key("rounds") { run_conc_rounds(&f) } else { run_conc(&f) }).unwrap_or_else(|_| "crash=panic".into());
     }
     let ids: Vec<u64> = f["ids"].split('.').map(p).collect();
     let keys: Vec<u64> = f["keys"].split('.').map(p).collect();
@@ -389,6 +462,41 @@ fn gen_cases(seed: u64, thorough: bool) -> Vec<String> {
         let ids: Vec<u64> = (0..ni).collect(); let keys: Vec<u64> = (0..nk).collect();
         cases.push(format!("k=conc ids={} keys={} sync={} pre={} th={}", ids.iter().map(h_).collect::<Vec<_>>().join("."), keys.iter().map(h_).collect::<Vec<_>>().join("."),
             ci % 2, if pre.is_empty() { "-".to_string() } else { pre.join(";") }, ths.join("!")));
+    }
+    // the same short history many times (rounds=), every round on a fresh registry, the threads
+    // released together by a spinning gate: several callers doing the same thing to the same peer
+    // at the same instant (a peer that is inserted once is removed once, whoever asks), alias and
+    // re-pointing against remove, queries and a broadcast beside them
+    let duel_rounds = if thorough { 1000 } else { 400 };
+    for (keys, pre, sync, th) in [
+        ("0", "I:0;I:1;L:0:0", 0, "X:0!X:0"),
+        ("0", "I:0;I:1;L:0:0", 0, "X:0!X:0!X:0"),
+        ("0.1", "I:0;I:1;L:0:0;L:0:1", 0, "X:0!X:0!X:0"),
+        ("0", "I:0;I:1", 0, "X:0!X:0!X:0!X:0"),
+        ("0", "I:0;I:1;L:0:0", 0, "X:0!X:0!G:0;N"),
+        ("0.1", "I:0;I:1;L:0:0;L:1:1", 0, "X:0!X:0!Y:0;A:0!F:0;Y:1"),
+        ("0", "I:0;I:1;L:0:0", 0, "X:0!X:0!B"),
+        ("0", "I:0;I:1;L:0:0", 1, "X:0;I:0;X:0;I:0!X:0;X:0;X:0;X:0"),
+        ("0", "I:0;I:1;L:0:0", 1, "X:0;I:0;X:0;I:0!X:0;X:0;X:0;X:0!X:0;X:0;X:0;X:0"),
+        ("0.1", "I:0;I:1;L:0:0", 0, "X:0!L:0:1"),
+        ("0.1", "I:0;I:1;L:0:0", 0, "X:0!S:0:1!X:0"),
+        ("0", "I:0;I:1", 0, "L:0:0!L:0:0!L:1:0"),
+        ("0", "I:0;I:1;L:0:0", 0, "L:1:0!X:0!Y:0!X:0"),
+    ] {
+        cases.push(format!("k=conc rounds={:x} ids=0.1 keys={} sync={} pre={} th={}", duel_rounds, keys, sync, pre, th));
+    }
+    // a session key migrating between two present peers, running freely: one thread keeps moving
+    // the key to the other peer, removing and re-inserting its previous owner and moving the key
+    // back, while 3-5 readers look the key up as fast as they can; at every moment the key
+    // addresses a present peer, so no lookup may find nobody
+    let mig_rounds = if thorough { 150 } else { 60 };
+    for (ci, nreaders) in [4usize, 4, 3, 5].into_iter().enumerate() {
+        let (a, b) = if ci % 2 == 0 { (0, 1) } else { (1, 0) };
+        let mover = vec![format!("L:{b}:0;X:{a};I:{a};L:{a}:0"); 16].join(";");
+        let reader = vec!["Y:0"; 64].join(";");
+        let mut ths = vec![mover];
+        for _ in 0..nreaders { ths.push(reader.clone()); }
+        cases.push(format!("k=conc rounds={:x} ids=0.1 keys=0 sync=0 pre=I:0;I:1;L:{a}:0 th={}", mig_rounds, ths.join("!")));
     }
     cases.into_iter().enumerate().map(|(i, c)| format!("i={i} {c}")).collect()
 }
